@@ -30,6 +30,7 @@ type scriptConn struct {
 	fin      string   // scripted: how the connection ends once drained: eof | idle | err
 	errReads int      // failed Reads handed out at the end of the script / after failRead
 	spun     bool     // the server kept reading after repeated read errors: it was stopped with EOF
+	patience time.Duration // how long waitIdle waits for the server (0 = 20 s)
 }
 
 func newScriptConn() *scriptConn {
@@ -165,7 +166,14 @@ func (c *scriptConn) feed(b []byte) bool {
 }
 
 func (c *scriptConn) waitIdle() bool {
-	t := time.AfterFunc(20*time.Second, func() {
+	d := c.patience
+	if d == 0 {
+		d = 20 * time.Second
+	}
+	c.mu.Lock()
+	c.expired = false
+	c.mu.Unlock()
+	t := time.AfterFunc(d, func() {
 		c.mu.Lock()
 		c.expired = true
 		c.cond.Broadcast()
